@@ -333,5 +333,7 @@ def run_all(res, tier, seed, model):
         history_stage(res, random.Random(seed * 7919 + 12), 6 if quick else 40, 6 if quick else 40, tp, hashseed=seed % 5)
         hashseed_stage(res, random.Random(seed * 7919 + 13), 5 if quick else 30, [0, 1, 2] if quick else list(range(8)), tp)
         local_name_stage(res, random.Random(seed * 7919 + 14), quick, model, tp, hashseed=seed % 5)
+        from props import c05reexport
+        c05reexport.run_all(res, tier, seed, model, tp)
     finally:
         tp.close()
